@@ -385,6 +385,45 @@ def sepset(rc):
                     rc.fail(fi, x, "the parallel variant must return the tested pair and set")
     if len(calls) < 3:
         rc.fail(fi, fi.node, "each variant must consult the CI test", construct="ci calls")
+    # the level loop tries every conditioning-set size 0..max_cond_vars (event order simulated on a small bound)
+    wl = [n for n in walk_no_nested(fi.node) if isinstance(n, ast.While)]
+    if not wl:
+        raise AnalysisError("build_skeleton: level loop not found")
+    events = []
+    for st in wl[0].body:
+        t = norm(st, 4000)
+        if isinstance(st, ast.If) and "ci_test(" in t:
+            events.append(("test", None))
+        elif isinstance(st, ast.If) and "max_cond_vars" in norm(st.test) and any(isinstance(x, ast.Break) for x in ast.walk(st)):
+            events.append(("check", st.test))
+        elif isinstance(st, ast.AugAssign) and dotted(st.target) == "lim_neighbors":
+            events.append(("incr", st))
+    lim0 = [n for n in fi.body if isinstance(n, ast.Assign) and dotted(n.targets[0]) == "lim_neighbors"]
+    if not lim0 or not any(e[0] == "check" for e in events) or not any(e[0] == "incr" for e in events) or not any(e[0] == "test" for e in events):
+        raise AnalysisError("build_skeleton: cannot read the level loop's test/check/increment structure")
+    tried = []
+    lim = lim0[0].value.value
+    mx = 2
+    for _ in range(10):
+        stop = False
+        for kind, node in events:
+            if kind == "test":
+                tried.append(lim)
+            elif kind == "incr":
+                lim += node.value.value if isinstance(node.op, ast.Add) else -node.value.value
+            elif kind == "check":
+                op = node.ops[0]
+                l, r = (lim, mx) if dotted(node.left) == "lim_neighbors" else (mx, lim)
+                val = {ast.GtE: l >= r, ast.Gt: l > r, ast.LtE: l <= r, ast.Lt: l < r, ast.Eq: l == r}[type(op)]
+                if val:
+                    stop = True
+                    break
+        if stop:
+            break
+    rc.ob(f"level loop events {[e[0] for e in events]}: with max_cond_vars={mx} the conditioning-set sizes tried are {tried}")
+    if tried != list(range(mx + 1)):
+        rc.fail(fi, wl[0], f"with max_cond_vars={mx} the skeleton phase tries conditioning sets of sizes {tried} instead of {list(range(mx + 1))}: pairs that need a separating set of "
+                f"the maximum allowed size keep their edge", construct="level loop sizes")
     # candidate conditioning sets come from the neighbours of u (minus v) and of v (minus u)
     for c in [n for n in ast.walk(fi.node) if isinstance(n, ast.Call) and call_name(n) == "combinations"]:
         a = c.args[0]
@@ -569,6 +608,9 @@ MUTANTS = [
     dict(kind="break", name="sepset-ordered-key", file=PCF, expect="C12.sepset",
          old="                            separating_sets[frozenset((u, v))] = separating_set\n                            graph.remove_edge(u, v)\n                            break\n\n            elif variant == \"stable\":",
          new="                            separating_sets[(u, v)] = separating_set\n                            graph.remove_edge(u, v)\n                            break\n\n            elif variant == \"stable\":"),
+    dict(kind="break", name="level-increment-before-check", file=PCF, expect="C12.sepset",
+         old="            if lim_neighbors >= max_cond_vars:\n                logger.info(\n                    \"Reached maximum number of allowed conditional variables. Exiting\"\n                )\n                break\n            lim_neighbors += 1\n",
+         new="            lim_neighbors += 1\n            if lim_neighbors >= max_cond_vars:\n                logger.info(\n                    \"Reached maximum number of allowed conditional variables. Exiting\"\n                )\n                break\n"),
     dict(kind="break", name="todag-one-directional-adjacency", file=DAGF, expect="C12.extend",
          old="pdag.has_edge(Y, Z) or pdag.has_edge(Z, Y)", new="pdag.has_edge(Y, Z)"),
     dict(kind="break", name="todag-no-sink-test", file=DAGF, expect="C12.extend",
